@@ -234,6 +234,50 @@ pub fn run(tier: Tier, rep: &mut Report) -> (String, String) {
     let wss = strings_over(&[" ", "\t", "\n", "\r", "\x0B", "\x0C", "\u{85}", "\u{A0}", "\u{2003}", "a", "ñ"], tier.pick(4, 5, 1));
     bounds += &format!("strings over [space,\\t,\\n,\\r,\\x0B,\\x0C,U+0085,U+00A0,U+2003,a,ñ] ({}); ", wss.len());
     rep.merge(par_each(&wss, th, |h, r| one_ws(r, h.as_bytes())));
+    // (c) long inputs and patterns (8..=17 bytes, t ..=33): the pattern is a prefix / suffix of the input, the same with one
+    // position changed, and the whole input - the shapes on which a word-at-a-time comparison differs from a byte loop;
+    // long white-space runs around a long core
+    if tier != Tier::Miri {
+        let maxl = tier.pick(17, 33, 0);
+        let mut pairs: Vec<(Vec<u8>, Vec<u8>)> = Vec::new();
+        for len in 8..=maxl {
+            let base: Vec<u8> = (0..len).map(|i| b'b' + (i % 3) as u8).collect();
+            for pl in [8, len - 1, len].into_iter().filter(|&x| x >= 8 && x <= len) {
+                for pat in [base[..pl].to_vec(), base[len - pl..].to_vec()] {
+                    pairs.push((base.clone(), pat.clone()));
+                    for p in 0..pl {
+                        let mut o = pat.clone();
+                        o[p] = if p % 2 == 0 { b'a' } else { b'z' };
+                        pairs.push((base.clone(), o));
+                    }
+                }
+            }
+            // a long pattern repeated (trim_*_matches) with a partial repetition left over
+            let unit: Vec<u8> = base[..8].to_vec();
+            let mut rep3 = unit.repeat(3);
+            rep3.extend_from_slice(&unit[..5]);
+            pairs.push((rep3.clone(), unit.clone()));
+            let mut pre = unit[3..].to_vec();
+            pre.extend(unit.repeat(2));
+            pairs.push((pre, unit));
+        }
+        bounds += &format!("long family: inputs of 8..={maxl} bytes x patterns that are a prefix / suffix of length 8, len-1, len, each also with one position changed ({} pairs); ", pairs.len());
+        rep.merge(par_each(&pairs, th, |(h, n), r| one_pair(r, h, n)));
+        let mut wsl: Vec<Vec<u8>> = Vec::new();
+        for lead in [0usize, 1, 7, 8, 9, 16] {
+            for trail in [0usize, 1, 7, 8, 9, 16] {
+                for core in [&b"a"[..], &b"abcdefgh"[..], &b"ab cd	efgh ij"[..], &b""[..]] {
+                    let mut v = vec![b' '; lead];
+                    if lead > 2 { v[1] = b'\t'; v[lead - 1] = 0x0C; }
+                    v.extend_from_slice(core);
+                    v.extend(std::iter::repeat(b'\n').take(trail));
+                    wsl.push(v);
+                }
+            }
+        }
+        bounds += &format!("white-space runs of 0,1,7,8,9,16 bytes on either side of 4 cores ({}); ", wsl.len());
+        rep.merge(par_each(&wsl, th, |h, r| one_ws(r, h)));
+    }
     rep.traces = rep.transitions;
     (
         "state = (input, pattern) pair or whitespace input; transition = one starts/ends_with, strip_prefix/suffix, trim_*_matches or trim* call (bytes_* with [u8],[u8;N],str,char patterns; string::* with str,char) compared by address and length with <[u8]>::starts_with/ends_with/strip_prefix/strip_suffix, a repeat-strip model cross-checked against str::trim_start_matches/trim_end_matches, and trim_ascii/trim_ascii_start/trim_ascii_end; two-sided trim_matches must equal one of the two compositions of the one-sided trims; non-trivial = a run of whole repetitions is trimmed and a partial repetition follows it / an input of >= 2 bytes whose whitespace trim is a proper non-empty part".into(),
